@@ -355,10 +355,34 @@ func runC10(w *World, r *Report) {
 		unl := CallsIn(proc, false, "sync.RWMutex).Unlock")
 		ok := len(after) == 1 && len(lock) == 1 && len(ensC) == 1 && len(pq) == 1 && len(unl) == 1
 		if ok {
-			ok = domInstr(after[0], lock[0]) && domInstr(lock[0], ensC[0]) && domInstr(ensC[0], pq[0]) && domInstr(pq[0], unl[0]) &&
+			// the unlock follows the hand-out: an explicit Unlock after it, or a deferred Unlock of the
+			// function that does the hand-out (the critical section extracted into a helper)
+			unlockAfter := domInstr(pq[0], unl[0])
+			if _, isDefer := unl[0].(*ssa.Defer); isDefer {
+				unlockAfter = unl[0].Parent() == pq[0].Parent() && domInstr(lock[0], unl[0])
+			}
+			// the hand-out is unconditional once the lock is taken (no early way out between them)
+			lockConds := map[string]bool{}
+			for _, c := range CondsOf(lock[0].Block()) {
+				lockConds[condsString([]Cond{c})] = true
+			}
+			for _, c := range CondsOf(pq[0].Block()) {
+				if !lockConds[condsString([]Cond{c})] {
+					unlockAfter = false
+				}
+			}
+			ok = domInstr(after[0], lock[0]) && domInstr(lock[0], ensC[0]) && domInstr(ensC[0], pq[0]) && unlockAfter &&
 				isCallTo0(after[0].Common().Args[0], "DelayedPriorityQueue).GetTimeTillWindowEnd")
-			// it is a loop: the unlock's block reaches the wait again, and there is no return
-			ok = ok && reachableFrom(unl[0].Block(), nil)[after[0].Block()]
+			// it is a loop: the unlock's block (or the call of the helper it is in) reaches the wait again, and there is no return
+			var last ssa.Instruction = unl[0]
+			for i := 0; i < 3 && last.Parent() != proc; i++ {
+				h := helperFor(last.Parent())
+				if h == nil || len(h.sites) != 1 {
+					break
+				}
+				last = h.sites[0]
+			}
+			ok = ok && last.Parent() == proc && reachableFrom(last.Block(), nil)[after[0].Block()]
 			for _, b := range proc.Blocks {
 				if _, isRet := b.Instrs[len(b.Instrs)-1].(*ssa.Return); isRet && b != proc.Recover {
 					ok = false
